@@ -17,6 +17,7 @@ import (
 	"sort"
 	"strconv"
 	"strings"
+	"sync"
 	"syscall"
 	"time"
 
@@ -227,7 +228,11 @@ func listTree(dir string) map[string]bool {
 }
 
 // record drives the real recorder with a publisher whose username is s.
-func (d *driver) record(g string, s string) (created []string) {
+func (d *driver) record(g string, s string) (created []string) { return d.recordN(g, s, 1) }
+
+// recordN: n connections of the same user are recorded at the same instant (the file names
+// collide and the recorder falls back on numbered names).
+func (d *driver) recordN(g string, s string, n int) (created []string) {
 	gg, err := group.Add(g, nil)
 	if err != nil {
 		d.run.Inconclusive("cannot instantiate the recording group: " + err.Error())
@@ -240,16 +245,32 @@ func (d *driver) record(g string, s string) (created []string) {
 		d.run.Inconclusive("diskwriter.New: " + err.Error())
 		return nil
 	}
-	up := &fakeUp{id: fmt.Sprintf("up%d", d.cur.Seq), user: s}
-	tr := &fakeTrack{}
-	err = dc.PushConn(gg, up.id, up, []conn.UpTrack{tr}, "")
-	if err == nil && len(tr.local) == 1 {
-		for i := 0; i < 3; i++ {
+	var trs []*fakeTrack
+	for k := 0; k < n; k++ {
+		up := &fakeUp{id: fmt.Sprintf("up%d-%d", d.cur.Seq, k), user: s}
+		tr := &fakeTrack{}
+		if err := dc.PushConn(gg, up.id, up, []conn.UpTrack{tr}, ""); err == nil && len(tr.local) == 1 {
+			trs = append(trs, tr)
+		}
+	}
+	for i := 0; i < 3; i++ {
+		// the connections write at the same moment (each from its own goroutine, released
+		// together): their files are opened within the same millisecond
+		var wg sync.WaitGroup
+		start := make(chan struct{})
+		for _, tr := range trs {
 			p := rtp.Packet{Header: rtp.Header{Version: 2, PayloadType: 111, SequenceNumber: uint16(100 + i), Timestamp: uint32(5000 + 960*i), SSRC: 9},
 				Payload: []byte{0xf8, 0xff, 0xfe, byte(i)}}
 			b, _ := p.Marshal()
-			tr.local[0].Write(b)
+			wg.Add(1)
+			go func(tr *fakeTrack) {
+				defer wg.Done()
+				<-start
+				tr.local[0].Write(b)
+			}(tr)
 		}
+		close(start)
+		wg.Wait()
 	}
 	dc.Close()
 	after := listTree(d.lay.Rec)
@@ -374,7 +395,23 @@ func (d *driver) send(in input) {
 		status, resp = d.raw("POST", "/recordings/"+in.Group+"/", hdr, []byte("q=delete&filename="+f))
 		maintain = true
 	case "record-username":
-		created := d.record(in.Group, in.S)
+		n := 1
+		if in.Seq%2 == 0 {
+			n = 4 // four connections of that user at the same instant: numbered fallback names
+		}
+		created := d.recordN(in.Group, in.S, n)
+		if n > 1 {
+			d.run.Count("recordings_of_one_user_at_the_same_instant", 1)
+			for _, p := range created {
+				if b := filepath.Base(p); strings.HasSuffix(b, "-01.webm") {
+					d.run.Count("recordings_with_numbered_fallback_names", 1)
+				}
+			}
+		}
+		if len(created) > 0 && len(created) < n && (in.S == "" || refValidName(in.S)) && !strings.Contains(in.S, "\x00") {
+			d.violation("recording-outside-group-dir:not-created:numbered-name", fmt.Sprintf("%d connections of the acceptable username %q were recorded at the same instant in group %s, but only %d files appeared in %s (the numbered fallback name was not derived from the sanitised username)",
+				n, in.S, in.Group, len(created), filepath.Join(d.lay.Rec, in.Group)))
+		}
 		if len(created) == 0 && in.Phase == "hostile" && (in.S == "" || refValidName(in.S)) && !strings.Contains(in.S, "\x00") {
 			// a username the property admits (NUL apart, which no file name can hold): its
 			// recording has to land in the group's directory, so it has to exist
